@@ -16,6 +16,7 @@ import (
 	"encoding/binary"
 	"encoding/hex"
 	"fmt"
+	"hash/crc32"
 	"io"
 	"net"
 	"reflect"
@@ -254,11 +255,19 @@ func vdResponseSubjects(skips *[]vdSkip) []*vdSubject {
 				return nil
 			}
 			tp := &vdTape{}
+			sig := ""
 			if err := vdTry(func() error { return tapeFn(buf, tp) }); err != nil {
-				*skips = append(*skips, vdSkip{name, int(ver), "valid encoding does not decode: " + err.Error()})
-				continue
+				if !strings.HasPrefix(err.Error(), "panic:") {
+					*skips = append(*skips, vdSkip{name, int(ver), "valid encoding does not decode: " + err.Error()})
+					continue
+				}
+				// a panic while decoding a valid encoding is not a reason to drop the subject: the worker decodes it
+				// again under its guard and records the panic as a result
+				sig = "panicked|"
+			} else {
+				sig = tp.signature() + "|"
 			}
-			sig := tp.signature() + "|" + hex.EncodeToString(buf)
+			sig += hex.EncodeToString(buf)
 			if seen[sig] {
 				continue
 			}
@@ -554,6 +563,43 @@ func vdRecordSubjects() []*vdSubject {
 			},
 			hasRecs: true, comp: c != CompressionNone,
 		})
+	}
+	// State carried from one decode to the next (pooled decompressor readers, caches) is part of what is decoded:
+	// every call of these subjects first decodes a batch / message whose compressed payload has a corrupt
+	// header (an error is expected), then the given bytes with the same codec.
+	for _, c := range vdCodecs {
+		c := c
+		if c == CompressionNone {
+			continue
+		}
+		garbage := []byte{0x00, 0x01, 0x02, 0x03, 0x04, 0x05, 0x06, 0x07, 0x08, 0x09}
+		cb := vdTestBatch(c, false)
+		cb.Records = make([]*Record, 3)
+		cb.compressedRecords = garbage
+		corruptBatch := vdMustEncode(cb)
+		sb := vdPlainDecodeSubject("RecordBatch.afterCorrupt/"+c.String(), 2, vdMustEncode(vdTestBatch(c, false)),
+			func() decoder { return &RecordBatch{} }, batchDig)
+		plainRun := sb.run
+		sb.run = func(b []byte) ([]string, error) {
+			_ = decode(vdExact(corruptBatch), &RecordBatch{})
+			return plainRun(b)
+		}
+		sb.comp = true
+		out = append(out, sb)
+		// legacy wrapper message: encoded uncompressed, then the codec bits are set and the CRC recomputed
+		cm := vdMustEncode(&MessageSet{Messages: []*MessageBlock{{Offset: 1, Msg: &Message{Version: 1, Value: garbage,
+			Timestamp: time.Unix(1600000002, 0).UTC()}}}})
+		cm[17] = byte(c) // offset(8) size(4) crc(4) magic(1) attributes(1)
+		binary.BigEndian.PutUint32(cm[12:], crc32.ChecksumIEEE(cm[16:]))
+		sm := vdPlainDecodeSubject("MessageSet.v1.afterCorrupt/"+c.String(), 1, vdMustEncode(vdTestMsgSet(1, c)),
+			func() decoder { return &MessageSet{} }, setDig)
+		plainRunM := sm.run
+		sm.run = func(b []byte) ([]string, error) {
+			_ = decode(vdExact(cm), &MessageSet{})
+			return plainRunM(b)
+		}
+		sm.comp = true
+		out = append(out, sm)
 	}
 	out = append(out, vdPlainDecodeSubject("RecordBatch/control", 2, vdMustEncode(vdTestBatch(CompressionNone, true)),
 		func() decoder { return &RecordBatch{} }, batchDig))
